@@ -3,6 +3,7 @@ import Mathlib.Algebra.BigOperators.Group.Finset.Sigma
 import Mathlib.Tactic.Ring
 import Mathlib.Tactic.Linarith
 import Splipy.Model.Order
+import Splipy.Lemmas.SolveSound
 
 /-!
 # C05, the projection argument
@@ -160,5 +161,93 @@ theorem reinterpolate_pardim1 (o : Obj K) (tol : K) (bOld bNew : Basis K) (pts :
     exact leftInv_apply pts.size (fun a b => Ni.get a b) (fun a b => Nnew.get a b) hinv (fun k => c' k c) i hi
 
 end Reinterp
+
+/-! ## The certificates never fail on well-shaped input (uses `Lemmas/SolveSound.lean`) -/
+
+theorem Mat.isLeftInv_of (Ai A : Mat K) (n : ℕ) (hs : Ai.size = n)
+    (h : ∀ i j, i < n → j < n → ∑ l ∈ Finset.range n, Ai.get i l * A.get l j = if i = j then 1 else 0) :
+    Mat.isLeftInv Ai A n = true := by
+  unfold Mat.isLeftInv
+  rw [Bool.and_eq_true, decide_eq_true_eq, List.all_eq_true]
+  refine ⟨hs, fun i hi => ?_⟩
+  rw [List.all_eq_true]
+  intro j hj
+  rw [decide_eq_true_eq, Mat.dot_eq_sum]
+  exact h i j (List.mem_range.mp hi) (List.mem_range.mp hj)
+
+theorem Mat.isSolution_of (A X B : Mat K) (n m : ℕ) (hs : X.size = n)
+    (h : ∀ i j, i < n → j < m → ∑ l ∈ Finset.range n, A.get i l * X.get l j = B.get i j) :
+    Mat.isSolution A X B n m = true := by
+  unfold Mat.isSolution
+  rw [Bool.and_eq_true, decide_eq_true_eq, List.all_eq_true]
+  refine ⟨hs, fun i hi => ?_⟩
+  rw [List.all_eq_true]
+  intro j hj
+  rw [decide_eq_true_eq, Mat.dot_eq_sum]
+  exact h i j (List.mem_range.mp hi) (List.mem_range.mp hj)
+
+/-- On a well-shaped square matrix the certificate check is redundant: `invChecked = inv`
+    (the Gauss–Jordan model is sound, `Mat.inv_left`). -/
+theorem Mat.invChecked_eq_inv (A : Mat K) (n : ℕ)
+    (hA : A.size = n ∧ ∀ i, i < n → (A.getD i #[]).size = n) :
+    Mat.invChecked A = Mat.inv A := by
+  unfold Mat.invChecked
+  cases h : Mat.inv A with
+  | error e => rfl
+  | ok Ai =>
+    obtain ⟨h1, _, h3⟩ := Mat.inv_left A Ai n hA h
+    have hn : A.nrows = n := hA.1
+    simp only [hn, Mat.isLeftInv_of Ai A n h1 h3, if_true]
+
+/-- `H_sw` in its two forms are equivalent on well-shaped matrices: a matrix with a left inverse
+    is inverted by the model (`Mat.inv_complete`) and the certificate passes. -/
+theorem Mat.invChecked_complete (A : Mat K) (n : ℕ)
+    (hA : A.size = n ∧ ∀ i, i < n → (A.getD i #[]).size = n) (L : ℕ → ℕ → K)
+    (hL : ∀ i j, i < n → j < n → ∑ l ∈ Finset.range n, L i l * A.get l j = if i = j then 1 else 0) :
+    ∃ Ai, Mat.invChecked A = .ok Ai := by
+  rw [Mat.invChecked_eq_inv A n hA]
+  exact Mat.inv_complete A n hA L hL
+
+theorem Mat.solveChecked_eq_solve (A B : Mat K) (n m : ℕ)
+    (hA : A.size = n ∧ ∀ i, i < n → (A.getD i #[]).size = n)
+    (hB : B.size = n ∧ ∀ i, i < n → (B.getD i #[]).size = m) (hn : 0 < n) :
+    Mat.solveChecked A B = Mat.solve A B := by
+  unfold Mat.solveChecked
+  cases h : Mat.solve A B with
+  | error e => rfl
+  | ok X =>
+    obtain ⟨h1, _, h3⟩ := Mat.solve_sound A B X n m hA hB h
+    have hr : A.nrows = n := hA.1
+    have hc : B.ncols = m := by unfold Mat.ncols; exact hB.2 0 hn
+    simp only [hr, hc, Mat.isSolution_of A X B n m h1 h3, if_true]
+
+theorem Mat.solveChecked_complete (A B : Mat K) (n m : ℕ)
+    (hA : A.size = n ∧ ∀ i, i < n → (A.getD i #[]).size = n)
+    (hB : B.size = n ∧ ∀ i, i < n → (B.getD i #[]).size = m) (hn : 0 < n) (L : ℕ → ℕ → K)
+    (hL : ∀ i j, i < n → j < n → ∑ l ∈ Finset.range n, L i l * A.get l j = if i = j then 1 else 0) :
+    ∃ X, Mat.solveChecked A B = .ok X := by
+  rw [Mat.solveChecked_eq_solve A B n m hA hB hn]
+  exact Mat.solve_complete A B n m hA hB L hL
+
+section Shape
+variable [FloorRing K]
+
+theorem evaluate_size (b : Basis K) (tol t : K) (d : ℕ) (fr : Bool) :
+    (b.evaluate tol t d fr).size = b.numFunctions := by
+  unfold Basis.evaluate
+  simp only
+  split
+  · simp
+  · simp [Row.toDense]
+
+/-- The Greville collocation matrix of the model is a well-shaped square matrix. -/
+theorem basisMat_shape (b : Basis K) (tol : K) (ps : List K) (hps : ps.length = b.numFunctions) :
+    (Obj.basisMat b tol ps 0 true).size = ps.length ∧
+      ∀ i, i < ps.length → ((Obj.basisMat b tol ps 0 true).getD i #[]).size = ps.length := by
+  refine ⟨basisMat_size b tol ps, fun i hi => ?_⟩
+  have hi' : i < b.numFunctions := by omega
+  simp [Obj.basisMat, Array.getD, hps, hi', evaluate_size]
+
+end Shape
 
 end Splipy
